@@ -113,8 +113,22 @@ def hevcArray (p : Bytes) (index typ : Nat) (need : Nat) : GoM (Bytes × Nat) :=
   let u ← slice? "hevc.record unit" p (index + 5) (index + 5 + len)
   pure (u, len)
 
-/-- `hevc.parseVpsSpsPpsFromRecord`: no length check before `payload[27]` … `payload[32]` -/
+/-- `hevc.parseVpsSpsPpsFromRecord`. The `fix:` commit of branch w-C05 added the length check before
+    `payload[27]` … `payload[32]` (`hevcParseRecordPinned` is the function without it). -/
 def hevcParseRecord (p : Bytes) : GoM (Bytes × Bytes × Bytes) := do
+  if p.length < 33 then throw .err
+  let n ← idx? "hevc.record[27]" p 27
+  if n ≠ 3 ∧ n ≠ 4 then throw .err
+  let (vps, vl) ← hevcArray p 28 32 33
+  if p.length < 38 + vl then throw .err
+  let (sps, sl) ← hevcArray p (33 + vl) 33 (38 + vl)
+  if p.length < 43 + vl + sl then throw .err
+  let (pps, _) ← hevcArray p (38 + vl + sl) 34 (43 + vl + sl)
+  pure (vps, sps, pps)
+
+/-- the pinned tree (S6): `payload[27]` … `payload[32]` without a length check; reached unguarded from
+    `ParseVpsSpsPpsFromEnhancedSeqHeader` -/
+def hevcParseRecordPinned (p : Bytes) : GoM (Bytes × Bytes × Bytes) := do
   let n ← idx? "hevc.record[27]" p 27
   if n ≠ 3 ∧ n ≠ 4 then throw .err
   let (vps, vl) ← hevcArray p 28 32 33
@@ -147,6 +161,7 @@ def hevcAnnexbLoop (p : Bytes) : Nat → Nat → Bytes × Bytes × Bytes → GoM
       match slice? "hevc.annexb nal" p (i + 4) (i + endv) with
       | .error e => .error e
       | .ok nal =>
+        if nal.isEmpty then hevcAnnexbLoop p fuel (i + endv) (vps, sps, pps) else   -- two adjacent start codes (w-C05 fix)
         match idx? "hevc.annexb nal[0]" nal 0 with
         | .error e => .error e
         | .ok h =>
@@ -175,6 +190,7 @@ def hevcParse (p : Bytes) : GoM (Bytes × Bytes × Bytes) := do
 
 /-- `hevc.ParseVpsSpsPpsFromEnhancedSeqHeader` -/
 def hevcParseEnhanced (p : Bytes) : GoM (Bytes × Bytes × Bytes) := do
+  if p.length < 1 then throw .err
   let b ← idx? "hevc.enhanced[0]" p 0
   if b.toNat % 16 = 0 then hevcParseRecord p else throw .err
 
